@@ -247,6 +247,7 @@ MSG_SCENARIOS: List[Tuple[str, bool, Dict[str, bool], Optional[bool]]] = [
     ("sub-message never touched (lazy default)", False, dict(unselected=False, none=False, group=False, optional=False, wraps=False, is_msg=True, sow=False, incl=False, eqdef=True, is_list=False, is_dict=False), True),
     ("sub-message present but empty", True, dict(unselected=False, none=False, group=False, optional=False, wraps=False, is_msg=True, sow=True, incl=False, is_list=False, is_dict=False), True),
     ("sub-message with content", True, dict(unselected=False, none=False, group=False, optional=False, wraps=False, is_msg=True, sow=True, incl=False, eqdef=False, is_list=False, is_dict=False), False),
+    ("sub-message filled in place (never assigned, content)", True, dict(unselected=False, none=False, group=False, optional=False, wraps=False, is_msg=True, sow=False, incl=False, eqdef=False, is_list=False, is_dict=False), False),
     ("oneof sub-message selected, empty", True, dict(unselected=False, none=False, group=True, optional=False, wraps=False, is_msg=True, sow=False, incl=True, eqdef=True, is_list=False, is_dict=False), True),
 ]
 CONTAINER_SCENARIOS = [
@@ -298,6 +299,10 @@ def rule_D2(ctx, rule: str = "D2", only: Optional[Set[str]] = None) -> None:
         for sc in CONTAINER_SCENARIOS:
             t = "map" if "map" in sc[0] else "int32"
             cases.append(("container", t, sc))
+        # an element of a repeated string / bytes / message field is a record of its own even when its payload is empty
+        for t in ("string", "bytes", "message"):
+            cases.append((f"container:{t}", t, ("repeated with an empty element", True, dict(unselected=False, none=False, group=False, optional=False, wraps=False, is_msg=False,
+                                                                                             incl=False, eqdef=False, is_list=True), True)))
         for cls, t, (sname, want, atoms, payload_empty) in cases:
             if only is not None and sname not in only:
                 continue
@@ -338,7 +343,7 @@ def rule_D2(ctx, rule: str = "D2", only: Optional[Set[str]] = None) -> None:
                 ctx.inconclusive(rule, name, f"emission depends on atoms outside the scenario: {[show(a) for a in sorted(free_atoms, key=repr)][:4]}", loc)
             else:
                 ctx.refuted(rule, name, f"emitted={not want}", loc,
-                            f"{ename}: a {cls} field in the state '{sname}' is {'emitted' if not want else 'NOT emitted'}; the proto3 presence table says it must {'be emitted' if want else 'be skipped'}",
+                            f"{ename}: a {cls} field in the state '{sname}' is {'emitted' if not want else 'NOT emitted (nothing keyed by the field number is written / counted)'}; the proto3 presence table says it must {'be emitted' if want else 'be skipped'}",
                             _example(sname, t))
     ctx.floor(rule, "scenario x wire class x emitter", n_ob, 1 if only else 80)
 
